@@ -74,7 +74,7 @@ theorem same_foldl {α : Type} (f : St → α → St) (hf : ∀ s x, Same s (f s
 theorem same_step (st : St) (op : Op)
     (h : match op with
       | .setMaterial .. | .setUniverse .. | .claim .. | .setFill .. | .setNumber .. | .append .. | .remove ..
-      | .setMaterials .. | .setCells .. | .addCellChildren => True
+      | .setMaterials .. | .setCells .. | .addCellChildren | .reupdate => True
       | _ => False) : Same st (step st op).1 := by
   cases op with
   | setMaterial c m => exact same_updCell st c _ (fun _ => ⟨rfl, rfl, rfl⟩)
@@ -124,7 +124,7 @@ theorem same_step (st : St) (op : Op)
   | iopAlias u c g => exact h.elim
   | setDivider c p ic d => exact h.elim
   | setChild c p r g => exact h.elim
-  | reupdate => exact h.elim
+  | reupdate => exact Same.refl st
 
 /-- storing a registered tree as the geometry of `c` keeps the invariant -/
 theorem inv_setGeom {st : St} {c : ObjId} {g : HS} (h : InvContain st) (hg : Good st c g) :
@@ -142,16 +142,14 @@ theorem inv_setGeom {st : St} {c : ObjId} {g : HS} (h : InvContain st) (hg : Goo
 theorem setGeometry_inv {st : St} (c : ObjId) (g : HS) (h : InvContain st) (hn : NoClones st) :
     InvContain (setGeometry st c g).1 ∧ (setGeometry st c g).1.sshape = st.sshape := by
   unfold setGeometry
-  dsimp only
-  have hs := addChildren_spec st c (g.setCell c)
-  generalize addChildren st c (g.setCell c) = r at hs ⊢
+  have hs := addChildren_spec st c g
+  generalize addChildren st c g = r at hs ⊢
   obtain ⟨st1, e⟩ := r
   cases e with
   | some err => exact ⟨h.ext hs.1, hs.1.shape⟩
   | none =>
     dsimp only at hs ⊢
     have := hs.2 rfl hn
-    simp only [setCell_surfs, setCell_comps] at this
     refine ⟨inv_setGeom (h.ext hs.1) ⟨setCell_allCell c g, ?_, ?_⟩, hs.1.shape⟩
     · simpa using this.1
     · simpa using this.2
@@ -216,7 +214,7 @@ theorem setChild_inv {st : St} (c : ObjId) (path : List Bool) (right : Bool) (ne
       | some err => exact ⟨h.ext hs.1, hs.1.shape⟩
       | none =>
         have hn' : Good st1 c n' := by
-          have h1 := hs.2.1
+          have h1 := hs.2.1 rfl
           have h2 := hs.2.2 rfl hn
           simp only at h1 h2
           rw [h1]; exact h2
@@ -237,7 +235,7 @@ theorem setChild_inv {st : St} (c : ObjId) (path : List Bool) (right : Bool) (ne
         | some err => exact ⟨h.ext hs.1, hs.1.shape⟩
         | none =>
           have hn' : Good st1 c n' := by
-            have h1 := hs.2.1
+            have h1 := hs.2.1 rfl
             have h2 := hs.2.2 rfl hn
             simp only at h1 h2
             rw [h1]; exact h2
@@ -310,10 +308,10 @@ theorem setDivider_inv {st : St} (c : ObjId) (path : List Bool) (ic : Bool) (d :
     through an alias, divider / left / right replacement, material, universe, claim, fill, renumbering,
     collection insertion and removal, the materials / cells setters, `add_cell_children_to_problem`) keeps
     `leaves ⊆ surfaces ∪ complements` for every cell, *also when the edit raises*, provided no two distinct
-    surfaces are `==` (`NoClones`, see `C16_contain_refuted`).  `reupdate` (the second `update_pointers`
-    inside `remove_duplicate_surfaces`, not an edit of the quantifier) is excluded. -/
-theorem C16_contain_step (st : St) (op : Op) (h : InvContain st) (hn : NoClones st)
-    (hop : op ≠ .reupdate) : InvContain (step st op).1 ∧ NoClones (step st op).1 := by
+    surfaces are `==` (`NoClones`, see `C16_contain_refuted`).  A refused geometry operand registers nothing
+    (repaired code), `remove_duplicate_surfaces` without duplicates touches no link. -/
+theorem C16_contain_step (st : St) (op : Op) (h : InvContain st) (hn : NoClones st) :
+    InvContain (step st op).1 ∧ NoClones (step st op).1 := by
   have same : Same st (step st op).1 → InvContain (step st op).1 ∧ NoClones (step st op).1 :=
     fun e => ⟨h.same e, noClones_of_shape hn e.1⟩
   have geo : InvContain (step st op).1 ∧ (step st op).1.sshape = st.sshape →
@@ -324,7 +322,7 @@ theorem C16_contain_step (st : St) (op : Op) (h : InvContain st) (hn : NoClones 
   | iopAlias u c g => exact geo (iopAlias_inv u c g h hn)
   | setDivider c p ic d => exact geo (setDivider_inv c p ic d h hn)
   | setChild c p r g => exact geo (setChild_inv c p r g h hn)
-  | reupdate => exact absurd rfl hop
+  | reupdate => exact same (same_step st _ trivial)
   | setMaterial c m => exact same (same_step st _ trivial)
   | setUniverse c u => exact same (same_step st _ trivial)
   | claim u cs => exact same (same_step st _ trivial)
@@ -338,14 +336,13 @@ theorem C16_contain_step (st : St) (op : Op) (h : InvContain st) (hn : NoClones 
 
 /-- **C16_contain** — induction over edit histories: from any state that satisfies the invariant (the
     empty pool does: `C16_contain_blank`) every history of edits leads to a state that satisfies it. -/
-theorem C16_contain (ops : List Op) : ∀ (st : St), InvContain st → NoClones st →
-    (∀ op ∈ ops, op ≠ .reupdate) → InvContain (run st ops) := by
+theorem C16_contain (ops : List Op) : ∀ (st : St), InvContain st → NoClones st → InvContain (run st ops) := by
   induction ops with
-  | nil => intro st h _ _; exact h
+  | nil => intro st h _; exact h
   | cons op t ih =>
-    intro st h hn hops
-    have := C16_contain_step st op h hn (hops op (List.mem_cons_self ..))
-    exact ih (step st op).1 this.1 this.2 (fun o ho => hops o (List.mem_cons_of_mem _ ho))
+    intro st h hn
+    have := C16_contain_step st op h hn
+    exact ih (step st op).1 this.1 this.2
 
 /-- the pool before anything is read or assigned satisfies the invariant -/
 theorem C16_contain_blank (cnum snum mnum unum tnum : ObjId → Int) (sshape mshape : ObjId → Nat)
@@ -366,7 +363,6 @@ def demo (clones : Bool) : St :=
 
 theorem demo_inv (b : Bool) : InvContain (demo b) := C16_contain_blank _ _ _ _ _ _ _ _
 
-theorem demoOps_ok : ∀ op ∈ demoOps, op ≠ .reupdate := by decide
 
 example : NoClones (demo false) := by
   intro a b hab
@@ -379,9 +375,9 @@ example : ((run (demo false) demoOps).cellOf 0).surfs = [0, 1, 2] := by decide
 /-- **C16_contain_refuted** — without `NoClones` the statement is false in the model as in the code:
     replacing a divider by a distinct-but-equal surface is not registered (known finding C16-F1a). -/
 theorem C16_contain_refuted :
-    ¬ (∀ (st : St) (ops : List Op), InvContain st → (∀ op ∈ ops, op ≠ .reupdate) → InvContain (run st ops)) := by
+    ¬ (∀ (st : St) (ops : List Op), InvContain st → InvContain (run st ops)) := by
   intro hall
-  have h := hall (demo true) demoOps (demo_inv true) demoOps_ok
+  have h := hall (demo true) demoOps (demo_inv true)
   have hg := h 0 _ (by decide : ((run (demo true) demoOps).cellOf 0).geom =
     some (.bin false (.leaf false 0 true (some 0)) (.leaf false 2 false (some 0)) (some 0)))
   have : (2 : ObjId) ∈ ((run (demo true) demoOps).cellOf 0).surfs := hg.2.1 2 (by decide)
@@ -593,8 +589,8 @@ theorem mem_sortByNum (num : ObjId → Int) (x : ObjId) : ∀ l, x ∈ sortByNum
 
 theorem setGeometry_linkExt (st : St) (c : ObjId) (g : HS) : LinkExt st (setGeometry st c g).1 := by
   simp only [setGeometry]
-  have hs := (addChildren_spec st c (g.setCell c)).1
-  generalize addChildren st c (g.setCell c) = r at hs ⊢
+  have hs := (addChildren_spec st c g).1
+  generalize addChildren st c g = r at hs ⊢
   obtain ⟨st1, e⟩ := r
   cases e with
   | some err => exact hs.linkExt
@@ -604,20 +600,11 @@ theorem setGeometry_linkExt (st : St) (c : ObjId) (g : HS) : LinkExt st (setGeom
 
 /-- **C16_linked_step** — every edit keeps "members are linked", also when it raises: collection
     insertion links the new member, the repaired `materials` setter and `add_cell_children_to_problem` link
-    every member of the collections they install, nothing ever clears a `_problem` pointer.
-    (`reupdate` is excluded as in `C16_contain_step`.) -/
-theorem C16_linked_step (st : St) (op : Op) (h : InvLinked st) (hop : op ≠ .reupdate) :
-    InvLinked (step st op).1 := by
+    every member of the collections they install, nothing ever clears a `_problem` pointer. -/
+theorem C16_linked_step (st : St) (op : Op) (h : InvLinked st) : InvLinked (step st op).1 := by
   cases op with
-  | reupdate => exact absurd rfl hop
-  | setGeometry c g =>
-    simp only [step, setGeometry]
-    have hs := (addChildren_spec st c (g.setCell c)).1
-    generalize addChildren st c (g.setCell c) = r at hs ⊢
-    obtain ⟨st1, e⟩ := r
-    cases e with
-    | some err => (try dsimp only at *); exact h.ext hs.linkExt
-    | none => (try dsimp only at *); exact h.ext (hs.linkExt.trans (linkExt_updCell st1 c _ (fun x => x)))
+  | reupdate => exact h
+  | setGeometry c g => exact h.ext (setGeometry_linkExt st c g)
   | iopCell u c other =>
     simp only [step, iopCell]
     split
@@ -805,14 +792,12 @@ theorem C16_linked_step (st : St) (op : Op) (h : InvLinked st) (hop : op ≠ .re
 
 /-- **C16_linked** — over every history of edits, from the empty problem (or any state in which the members
     are linked, e.g. the one `load` produces, whose every insertion goes through `collAppend`). -/
-theorem C16_linked (ops : List Op) : ∀ (st : St), InvLinked st → (∀ op ∈ ops, op ≠ .reupdate) →
-    InvLinked (run st ops) := by
+theorem C16_linked (ops : List Op) : ∀ (st : St), InvLinked st → InvLinked (run st ops) := by
   induction ops with
-  | nil => intro st h _; exact h
+  | nil => intro st h; exact h
   | cons op t ih =>
-    intro st h hops
-    exact ih (step st op).1 (C16_linked_step st op h (hops op (List.mem_cons_self ..)))
-      (fun o ho => hops o (List.mem_cons_of_mem _ ho))
+    intro st h
+    exact ih (step st op).1 (C16_linked_step st op h)
 
 theorem C16_linked_blank (cnum snum mnum unum tnum : ObjId → Int) (sshape mshape : ObjId → Nat)
     (strans : ObjId → Option ObjId) : InvLinked (St.blank cnum snum mnum unum tnum sshape mshape strans) := by
